@@ -80,7 +80,8 @@ def addCells (src : Bytes) (row : Nat) : List GM.Table.Cell → M Unit
 /-- a TableRow (or the TableHeader the header row's cells are moved into) below `table` -/
 def addRow (src : Bytes) (table : Nat) (tag : Nat) (cells : List GM.Table.Cell) : M Unit := do
   let id ← newNode { kind := .thematicBreak, htmlType := tag, offset := dashAt src,
-                     lines := (cells.flatMap (·.esc)).map escSeg }
+                     lines := (cells.flatMap (·.esc)).map escSeg,
+                     linesNil := (cells.flatMap (·.esc)).isEmpty }          -- the record invariant `linesNil → lines = []`
   addCells src id cells
   appendChild table id
 
